@@ -131,6 +131,7 @@ fn peer_timeout(d: &Draw, tmo_s: u64) -> Ns {
 pub fn xfer(prop: &'static str, tier: Tier, w: &Arc<World>) -> Scn {
     let d = Draw { w };
     let sandbox = Sandbox::new();
+    w.lock().sb_root = sandbox.root.to_string_lossy().into_owned();
     let dir = sandbox.dir("srv");
     let kind = match prop {
         "C01" => Kind::Download,
@@ -324,11 +325,12 @@ pub fn xfer(prop: &'static str, tier: Tier, w: &Arc<World>) -> Scn {
         g.cfg = fc;
     }
     let dally = xc.dally;
+    let timeout_ratio = ((xc.timeout_ns + oc.tmo_s * SEC - 1) / (oc.tmo_s * SEC)).max(1) as u32;
     let (peer, client) = match kind {
         Kind::Download => w.add_peer(Box::new(Reader::new(xc)), srv.v6, 0),
         Kind::Upload => w.add_peer(Box::new(Writer::new(xc, data.to_vec())), srv.v6, 0),
     };
-    let spec = XferSpec { client, peer, kind, content: data.clone(), path, conformant, dally };
+    let spec = XferSpec { client, peer, kind, content: data.clone(), path, conformant, dally, timeout_ratio };
     w.add_monitor(Box::new(XferMon::new(prop, rules, vec![spec], dupn)));
     boot_server(w, &srv).expect("server config");
     w.start_peer_at(peer, 10 * MS);
